@@ -511,7 +511,11 @@ func (g *G) Type() {
 var simpleTypes = []string{"INT64", "BOOL", "FLOAT32", "FLOAT64", "DATE", "TIMESTAMP", "NUMERIC", "STRING", "BYTES", "JSON", "TOKENLIST"}
 
 func (g *G) typ() {
-	switch g.alt(5) {
+	switch g.alt(6) {
+	case 5:
+		// a simple type name written as a quoted identifier (type names are matched on the decoded name)
+		g.srcOnly(func() { g.emit(Tok{Text: "`INT64`", Class: ID, Val: "INT64"}) })
+		g.canonOnly(func() { g.pk("INT64") })
 	case 0:
 		g.pk("INT64")
 	case 1:
